@@ -95,6 +95,8 @@ def violation_for(src, on, ref, seen_out=None, compare_ns=True):
     got = observe.run(code)
     d = observe.same(ref, got, compare_ns)
     r = None
+    if d and 'UnboundLocalError' in (ref['exc'], got['exc']) and observe.inlining_quirk(src, out, compare_ns):
+        d = None        # the original trips over CPython 3.12.1's comprehension inlining; without inlining (3.11) both behave the same
     if d:
         kind = 'behaviour-differs'
         if ref['exc'] != got['exc']:
